@@ -15,6 +15,19 @@ Proof. destruct p as [x y]. unfold aff_act, aff_id; simpl. f_equal; ring. Qed.
 Lemma aff_det_mul a b : aff_det (aff_mul a b) = (aff_det a * aff_det b)%Qc.
 Proof. unfold aff_det, aff_mul; simpl. ring. Qed.
 
+Lemma aff_eqb_eq a b : aff_eqb a b = true -> a = b.
+Proof.
+  unfold aff_eqb. intro H. repeat (apply andb_true_iff in H as (H & ?)).
+  destruct a, b; simpl in *.
+  repeat match goal with E : Qc_eq_bool _ _ = true |- _ => apply Qc_eq_bool_correct in E end.
+  match goal with E : Bool.eqb _ _ = true |- _ => apply Bool.eqb_prop in E end.
+  congruence.
+Qed.
+Lemma Qc_eq_bool_refl x : Qc_eq_bool x x = true.
+Proof. unfold Qc_eq_bool. destruct (Qc_eq_dec x x); congruence. Qed.
+Lemma aff_eqb_refl a : aff_eqb a a = true.
+Proof. unfold aff_eqb. rewrite !Qc_eq_bool_refl, Bool.eqb_reflx. reflexivity. Qed.
+
 (* ---- ranks --------------------------------------------------------------------------- *)
 Section Whole.
   Variables P T : Type.
